@@ -234,8 +234,8 @@ class C06(TraceProp):
                 continue
             yield dict(base, kind='kill', fault=rng.randrange(1, n + 1), nstatements=n)
         for _ in range(c['sp']):
-            spec = proggen.random_spec(rng, shapes=['articles', 'joined', 'composite'])
-            prog = proggen.random_program(rng, spec, rng.choice([8, 14, 20]), weights={'rollback': 1})
+            spec = proggen.random_spec(rng, shapes=['articles', 'joined', 'composite', 'm2m', 'm2m'])
+            prog = proggen.random_program(rng, spec, rng.choice([8, 14, 20]), weights={'rollback': 1, 'core_link': 4, 'link': 5})
             # place one savepoint bracket; rolled-back brackets contain no flush / commit / query
             i = rng.randrange(0, len(prog))
             j = rng.randrange(i, len(prog))
@@ -245,6 +245,11 @@ class C06(TraceProp):
                 continue
             prog2 = prog[:i] + [['sp_begin']] + body + [['sp_commit'] if release else ['sp_rollback']] + prog[j:]
             yield {'kind': 'sp', 'spec': spec, 'program': prog2, 'autoflush': False, 'released': release}
+
+        for _ in range(10 if tier == 'quick' else 300):
+            c = proggen.core_sp_case(rng)
+            c.update({'kind': 'sp', 'released': ['sp_commit'] in c['program']})
+            yield c
 
     def run_case(self, case):
         if case['kind'] == 'fault':
@@ -278,7 +283,7 @@ class C06(TraceProp):
         if case['kind'] == 'sp':
             # the transactions after a savepoint must be versioned as if nothing had happened: every
             # segment oracle applies
-            self.seg_fields = ('C06db', 'C01', 'C02', 'C03', 'C11')
+            self.seg_fields = ('C06db', 'C01', 'C02', 'C03', 'C11') + (('C10',) if case['spec'].get('assoc') else ())
         try:
             out = TraceProp.judge(self, case, obs, answers)
         finally:
